@@ -50,7 +50,14 @@ def _s23bm():
     # a writable array of values under a READ-ONLY broadcast view as mask (a mask shared by broadcasting)
     return Scalar(np.arange(6.).reshape(2, 3), np.broadcast_to(np.array([False, True, False]), (2, 3)))
 
-OBJECTS = {'M3': _m3, 'Q2': _q2, 'P2': _p2, 'Pr2': _pr2, 'S3dd': _s3dd, 'S23bm': _s23bm, 'S3m': _s3m, 'S3': _s3, 'S0': _s0, 'S0d': _s0d, 'S3d': _s3d, 'S23m': _s23m, 'I3': _i3, 'I0d': _i0d,
+def _s0du():
+    # an object that already carries units (km) and a derivative: a unit change of another SCALE is one step away
+    a = Scalar(1.5, units=Units.KM); a.insert_deriv('t', Scalar(2., units=Units.KM)); return a
+def _s3du():
+    a = Scalar(np.array([1., 2., 3.]), np.array([False, True, False]), units=Units.RAD)
+    a.insert_deriv('t', Scalar(np.array([.5, .25, 2.]), units=Units.RAD)); return a
+
+OBJECTS = {'S0du': _s0du, 'S3du': _s3du, 'M3': _m3, 'Q2': _q2, 'P2': _p2, 'Pr2': _pr2, 'S3dd': _s3dd, 'S23bm': _s23bm, 'S3m': _s3m, 'S3': _s3, 'S0': _s0, 'S0d': _s0d, 'S3d': _s3d, 'S23m': _s23m, 'I3': _i3, 'I0d': _i0d,
            'B3': _b3, 'B0': _b0, 'V2d': _v2d, 'V0': _v0, 'M2': _m2, 'S3ro': _s3ro}
 
 DERIVED = {'plus1': lambda a: a + 1, 'minus1': lambda a: a - 1, 'times2': lambda a: a * 2, 'div2': lambda a: a / 2,
@@ -73,6 +80,8 @@ MUTS = ([o + ':' + k for o in ARITH for k in ('num', 'arr', 'obj', 'objm', 'objT
          'itruediv:badT', 'iand:bad'] +
         ['insd:t', 'insd:u', 'insds', 'deld:t', 'deld:zz', 'delds', 'delds:pt',
          'units:km', 'units:none', 'units:sec', 'ro', 'ro:nr', 'hold:arr', 'hold:am0', 'hold:amm'] +
+        # compatible units of a DIFFERENT SCALE (km -> m, rad -> deg, s -> min): only the scale factor changes
+        ['units:m', 'units:deg', 'units:rad', 'units:min'] +
         # non-default argument forms (the override forms also work on a read-only object)
         ['deld:t:o', 'delds:o', 'units:km:o', 'insd:t:no', 'insds:o'])
 
@@ -107,17 +116,19 @@ COMPACT = {
     'S3m': _CQ + ['set:sl:badT', 'iadd:bad', 'iadd:num', 'imul:objm', 'set:0:masked', 'set:sl:obj', 'insd:t', 'units:km', 'ro', 'shun:arr', 'shun:amm:ns', 'shun:am0:ns', 'q:times2'],
     'S3': _CQ + ['set:sl:badT', 'set:sl:badm', 'isub:arr', 'itruediv:zero', 'imod:objm', 'imod:objz', 'ifloordiv:arrz', 'set:bm:num', 'set:mi:num', 'insd:t', 'deld:t', 'hold:arr', 'unheld', 'shun:am0:ns', 's:insd', 's:units:o'],
     'S0': _CQ + ['iadd:num', 'imul:num', 'iadd:objm', 'set:all:num', 'set:sl:objm', 'insd:t', 'shun:arr', 'ro'],
-    'S0d': _CQ + ['iadd:num', 'isub:arr', 'imul:num', 'itruediv:num', 'imod:num', 'ifloordiv:num', 'imod:objz', 'itruediv:objzd', 'deld:t', 'units:km', 'ro', 'ro:nr', 'q:plus1'],
+    'S0d': _CQ + ['iadd:num', 'isub:arr', 'imul:num', 'itruediv:num', 'imod:num', 'ifloordiv:num', 'imod:objz', 'itruediv:objzd', 'deld:t', 'units:km', 'units:m', 'ro', 'ro:nr', 'q:plus1'],
     'S3d': _CQ + ['set:sl:badT', 'imul:bad', 'iadd:num', 'imul:num', 'iadd:objd', 'imul:objm', 'set:0:masked', 'delds', 'ro', 'ro:nr', 'shun:arr', 'holdw', 'q:heldw'],
     'S23m': _CQ + ['set:sl:badT', 'set:bm:badT', 'set:0:num', 'set:sl:objm', 'iadd:objm', 'imul:objT', 'shun:arr', 'hold:arr', 'unheld', 'unheld:ns', 'hold:amm', 'shun:amm:ns', 's:insd', 's:deld:o', 'q:mod2', 'imod:arrz', 'itruediv:objz'],
     'I3': _CQ + ['iand:objm', 'ior:arr', 'ixor:obj', 'iadd:num', 'ifloordiv:obj', 'ifloordiv:objz', 'imod:objm', 'imod:zero', 'insd:t'],
     'I0d': _CQ + ['iand:bool', 'ior:objm', 'iadd:num', 'imul:num', 'deld:t', 'ro'],
     'B3': _CQ + ['set:sl:bad', 'iand:bad', 'iand:objm', 'ior:objm', 'ixor:objm', 'iand:bool', 'ior:arr', 'set:0:masked', 'shun:arr'],
     'B0': _CQ + ['iand:objm', 'ior:bool', 'ixor:objT', 'set:all:num', 'set:sl:objm', 'ro'],
-    'V2d': _CQ + ['iadd:objm', 'imul:num', 'imul:objm', 'itruediv:num', 'itruediv:objz', 'set:0:masked', 'deld:t', 'units:km'],
+    'V2d': _CQ + ['iadd:objm', 'imul:num', 'imul:objm', 'itruediv:num', 'itruediv:objz', 'set:0:masked', 'deld:t', 'units:km', 'units:m'],
     'V0': _CQ + ['iadd:obj', 'imul:num', 'imul:objT', 'set:all:num', 'insd:t'],
     'M2': _CQ + ['imul:num', 'imul:obj', 'iadd:objm', 'set:0:masked', 'ro'],
-    'S3ro': _CQ + ['iadd:num', 'insd:u', 'deld:t', 'deld:t:o', 'units:km', 'units:km:o', 'set:0:num', 'shun:arr'],
+    'S3ro': _CQ + ['iadd:num', 'insd:u', 'deld:t', 'deld:t:o', 'units:km', 'units:km:o', 'units:deg', 'units:rad', 'set:0:num', 'shun:arr'],
+    'S0du': _CQ + ['units:m', 'units:km', 'units:none', 'iadd:num', 'imul:num', 'q:plus1'],
+    'S3du': _CQ + ['units:deg', 'units:rad', 'iadd:objm', 'imul:num', 'set:0:masked', 'shun:arr'],
     'M3': _CQ + ['imul:obj', 'imul:num', 'itruediv:num', 'itruediv:objz', 'set:0:masked', 'insd:t'],
     'Q2': _CQ + ['imul:num', 'iadd:objm', 'itruediv:objz', 'set:0:masked', 'ro'],
     'P2': _CQ + ['iadd:obj', 'isub:objm', 'imul:num', 'itruediv:num', 'itruediv:objz', 'set:0:masked'],
@@ -134,7 +145,7 @@ QUICK3 = {
     'S3m': _CQ + ['set:sl:badT', 'imul:objm', 'units:km', 'set:0:masked', 'iadd:num'],
     'S3': _CQ + ['set:sl:badm', 'imod:objz', 'hold:arr', 'unheld', 's:insd'],
     'S0': _CQ + ['iadd:num', 'set:all:num', 'set:sl:objm', 'iadd:objm', 'shun:arr'],
-    'S0d': _CQ + ['iadd:num', 'imul:num', 'imod:objz', 'units:km', 'q:plus1'],
+    'S0d': _CQ + ['iadd:num', 'units:m', 'imod:objz', 'units:km', 'q:plus1'],
     'S3d': _CQ + ['imul:objm', 'ro:nr', 'holdw', 'q:heldw', 'ro'],
     'S23m': _CQ + ['set:bm:badT', 'set:sl:objm', 'imod:arrz', 'shun:arr', 'iadd:objm'],
     'I3': _CQ + ['iand:objm', 'imod:zero', 'ifloordiv:objz', 'iadd:num', 'insd:t'],
@@ -428,7 +439,8 @@ def apply_op(st, op):
         else: a.delete_derivs()
         return 'ok'
     if h == 'units':
-        a.set_units({'km': Units.KM, 'none': None, 'sec': Units.SECONDS}[p[1]]); return 'ok'
+        a.set_units({'km': Units.KM, 'none': None, 'sec': Units.SECONDS, 'm': Units.M, 'deg': Units.DEG,
+                     'rad': Units.RAD, 'min': Units.MIN}[p[1]]); return 'ok'
     if h == 'ro':
         if len(p) > 1: a.as_readonly(recursive=False)
         else: a.as_readonly()
